@@ -532,14 +532,37 @@ pub fn robust(d: &mut D) {
 
 /// Build a library-encoded request and patch source address / EID, instance id and D bit.
 fn forge_req(d: &mut D, enc_ctx: u64, name: &str, args: Value, src: u8, iid: u8, dbit: u8) -> Vec<u8> {
-    let mut p = d.enc_req(enc_ctx, name, args);
+    let mut p = d.enc_req(enc_ctx, name, args.clone());
     if p.len() < 12 {
-        // refused, panicked, or (with a broken encoder) not even a control packet: nothing to forge from
-        return Vec::new();
+        // refused, panicked, or (with a broken encoder) not even a control packet: the receive-side drivers must not
+        // depend on a working encoder, so the request is written by hand from DSP0236 (the monitor judges the
+        // receive path on the bytes it is given, wherever they come from)
+        p = hand_req(name, &args);
     }
     p[3] = (src << 1) | 1;
     p[6] = src;
     p[9] = 0x80 | (dbit << 6) | (iid & 0x1F);
+    fix_pec(&mut p);
+    p
+}
+
+/// A control request written by hand (fallback of `forge_req`): always at least 12 bytes.
+fn hand_req(name: &str, args: &Value) -> Vec<u8> {
+    let b = |k: &str| args[k].as_u64().unwrap_or(0) as u8;
+    let (cmd, data): (u8, Vec<u8>) = match name {
+        "set_endpoint_id" => (1, vec![b("operation") & 3, b("eid")]),
+        "get_endpoint_id" => (2, vec![]),
+        "get_endpoint_uuid" => (3, vec![]),
+        "get_mctp_version_support" => (4, vec![b("query")]),
+        "get_message_type_suport" => (5, vec![]),
+        "get_vendor_defined_message_support" => (6, vec![b("selector")]),
+        _ => (0x0B, vec![]), // Get Routing Table Entries shape; callers only need a well-framed control request
+    };
+    let dst = b("dst");
+    let mut p = vec![dst << 1, 0x0F, 0, 0x01, 0x01, dst, 0, 0xC8, 0x00, 0x80, cmd];
+    p.extend_from_slice(&data);
+    p.push(0);
+    p[2] = (p.len() - 4) as u8;
     fix_pec(&mut p);
     p
 }
